@@ -313,15 +313,16 @@ def watchdog(seconds):
   import signal, threading
   if threading.current_thread() is not threading.main_thread():
     yield; return
+  # CPU time of this process (not wall time): a loaded machine must not look like a non-terminating operation
   def handler(signum, frame):
-    raise Hang('operation still running after %.1fs' % seconds)
-  old = signal.signal(signal.SIGALRM, handler)
-  signal.setitimer(signal.ITIMER_REAL, seconds)
+    raise Hang('operation still running after %.1fs of CPU time' % seconds)
+  old = signal.signal(signal.SIGVTALRM, handler)
+  signal.setitimer(signal.ITIMER_VIRTUAL, seconds)
   try:
     yield
   finally:
-    signal.setitimer(signal.ITIMER_REAL, 0)
-    signal.signal(signal.SIGALRM, old)
+    signal.setitimer(signal.ITIMER_VIRTUAL, 0)
+    signal.signal(signal.SIGVTALRM, old)
 
 # ---- applying one operation -------------------------------------------------------------------------
 def app_order(impl, target, paths):
